@@ -85,7 +85,8 @@ Definition callbacks_called_during_construction : nat := {n_calls}.
     loop = next(x for x in strip_doc(rn.body) if isinstance(x, ast.While))
     need(_ns(loop.test) == "True" and _ns(loop.body[0]) == "self.iteration+=1" and
          _ns(loop.body[-1]).replace("\n", "") == "ifself._check_convergence(current_acceptance):break"
-         and sum(isinstance(n, ast.Break) for n in ast.walk(loop)) == 1 and not any(isinstance(n, ast.Continue) for n in ast.walk(loop)),
+         and sum(isinstance(n, ast.Break) for n in ast.walk(loop)) == 1
+         and not any(isinstance(n, ast.Continue) for st_ in loop.body if not isinstance(st_, (ast.For, ast.While)) for n in ast.walk(st_)),
          loop, "loop shape: count, step, test-and-break", w2)
     ini = _ns(get_function(mc, "BaseMCMCRunner.__init__"))
     need("self.iteration=0" in ini, rn, "iteration starts at 0", w2)
